@@ -288,6 +288,7 @@ fn byte_pressure_scenario(prop: &str, seed: u64, k: u64, tier: &str) -> Scenario
     p.nsyms = 8;
     p.big = 1 << 20;
     p.many_sections = 0;
+    p.relink = false;
     p.aliases = 0;
     p.dup_kinds = false;
     p.compressed = false;
@@ -465,6 +466,7 @@ pub fn build_extra_scenario(prop: &str, seed: u64, k: u64, tier: &str, samples: 
         p.xnum_zero = false;
         p.big = 0;
         p.many_sections = 0;
+        p.relink = false;
         let mut b = gen::build(&mut g, &p);
         let m = Model::of(&b);
         let e = m.ehdr.unwrap();
